@@ -84,6 +84,7 @@ fn check_list(list: &SemanticErrorList, text: &str, nodes: &HashSet<(usize, usiz
     }
     // the lists of included files pair up with the included sources in order
     for (k, inc) in list.include_errors().iter().enumerate() {
+        let mut checked = false;
         if let Some(sf) = included.get(k) {
             if let Some(ast) = sf.syntax_ast() {
                 if ast.have_parse() {
@@ -91,7 +92,16 @@ fn check_list(list: &SemanticErrorList, text: &str, nodes: &HashSet<(usize, usiz
                     let t = root.text().to_string();
                     let ns: HashSet<(usize, usize)> = root.descendants().map(|n| (usize::from(n.text_range().start()), usize::from(n.text_range().end()))).collect();
                     check_list(inc, &t, &ns, sf.included(), issues, ndiag);
+                    checked = true;
                 }
+            }
+        }
+        // a list tagged with a file that has no text (it could not be read) cannot hold a
+        // diagnostic: its range would refer to nothing
+        if !checked {
+            for e in inc.iter() {
+                *ndiag += 1;
+                issues.push(format!("{:?} is filed under {:?}, a file without text or tree", e.kind(), inc.source_file_path()));
             }
         }
     }
